@@ -154,6 +154,28 @@ def role_order_cases():
     return out
 
 
+def time_mode_cases():
+    """time operators whose bound is an ISO literal written in the policy, against requests carrying an aware datetime, a
+    naive one, an ISO string or an epoch number, in both type modes (strict accepts aware datetimes only - the literal
+    in the policy is a string there, hence a type mismatch), single policy (compiled path) and set"""
+    naive = _dt0.datetime(2025, 1, 1)
+    out = []
+    conds = [{"before": [{"attr": "context.now"}, "2999-01-01T00:00:00Z"]}, {"after": ["2999-01-01T00:00:00Z", {"attr": "context.now"}]},
+             {"between": [{"attr": "context.now"}, ["2000-01-01T00:00:00Z", "2999-01-01T00:00:00Z"]]},
+             {"not": {"after": [{"attr": "context.now"}, "2999-01-01T00:00:00+00:00"]}},
+             {"before": [{"attr": "context.now"}, DT_LITERAL]}]
+    for ci, cond in enumerate(conds):
+        pol = {"id": "time%d" % ci, "algorithm": "deny-overrides", "rules": [
+            {"id": "window", "effect": "permit", "actions": ["read"], "resource": {"type": "doc"}, "condition": cond}]}
+        for now in (DT_NOW, naive, "2025-01-01T00:00:00Z", 1735689600, None):
+            req = {**polgen.BASE_REQ, "context": {"now": now}}
+            for strict in (False, True):
+                for shape in ("single", "set"):
+                    p2 = pol if shape == "single" else {"algorithm": "deny-overrides", "policies": [pol]}
+                    out.append({"fam": "time_mode", "policy": p2, "req": req, "strict": strict})
+    return out
+
+
 def random_cases(chk, n):
     rng = chk.rng
     out = []
